@@ -19,4 +19,29 @@ for f in sorted(glob.glob(os.path.join(HERE, 'harness', '*.py'))):
                 print('%s: %s defined at line %d and again at line %d' % (os.path.basename(f), nm, seen[nm], n.lineno))
                 bad += 1
             seen.setdefault(nm, n.lineno)
+
+
+def _lit_keys(node):
+    if isinstance(node, ast.Call) and getattr(node.func, 'id', None) == 'parse_all' and node.args and isinstance(node.args[0], ast.Dict):
+        node = node.args[0]
+    if isinstance(node, ast.Dict):
+        return [k.value for k in node.keys if isinstance(k, ast.Constant)]
+    return []
+
+
+# the same template key added twice to one token table (T = parse_all({...}); T.update(parse_all({...}))) replaces the earlier expression
+for f in sorted(glob.glob(os.path.join(HERE, 'harness', '*.py'))):
+    keys = {}
+    for n in ast.parse(open(f).read()).body:
+        name, ks = None, []
+        if isinstance(n, ast.Assign) and isinstance(n.targets[0], ast.Name):
+            name, ks = n.targets[0].id, _lit_keys(n.value)
+        elif isinstance(n, ast.Expr) and isinstance(n.value, ast.Call) and isinstance(n.value.func, ast.Attribute) and n.value.func.attr == 'update' \
+                and isinstance(n.value.func.value, ast.Name) and n.value.args:
+            name, ks = n.value.func.value.id, _lit_keys(n.value.args[0])
+        for k in ks:
+            if (name, k) in keys:
+                print('%s: key %r of %s defined at line %d and again at line %d' % (os.path.basename(f), k, name, keys[(name, k)], n.lineno))
+                bad += 1
+            keys.setdefault((name, k), n.lineno)
 sys.exit(1 if bad else 0)
